@@ -213,7 +213,7 @@ def crash_oracle(it):
         return "harness died: %s" % it["stderr"][-300:]
     if rec["hang"]:
         return "receiver waited for ever after the sender died (k=%d)" % c["k"]
-    msgs = [e["msg"] for e in rec["log"] if isinstance(e, dict)]
+    msgs = [e["msg"] for e in rec["log"] if isinstance(e, dict) and "msg" in e]
     words = [e for e in rec["log"] if isinstance(e, str)]
     for m in msgs:
         if not m[3]:
@@ -235,6 +235,10 @@ def crash_oracle(it):
             return "message from the surviving sender did not arrive (log %s)" % rec["log"]
         if rec["after"] not in (None, "Empty"):
             return "after the crash the channel with a surviving sender reports %s instead of Empty" % rec["after"]
+        satts = [e["survivor_atts"] for e in rec["log"] if isinstance(e, dict) and "survivor_atts" in e]
+        if satts and (satts[0][0] != 1 or not satts[0][1] or not rec.get("survivor_probe")):
+            return ("the surviving sender's message, which embeds one endpoint, arrived with %d attachments (first one usable: %s, connected to the embedded endpoint: %s) "
+                    "after the crashed sender's interrupted message" % (satts[0][0], satts[0][1], rec.get("survivor_probe")))
     else:
         if not words or words[-1] != "Disconnected":
             return "no surviving sender, yet the receiver was not told 'disconnected' (log ends %s)" % rec["log"][-2:]
@@ -259,7 +263,7 @@ def crash_model_term(it):
         mid += 1
     if c["survivor"]:
         labels.append("LStart (mk_plan 300 1)")
-    msgs = [e["msg"] for e in rec["log"] if isinstance(e, dict)]
+    msgs = [e["msg"] for e in rec["log"] if isinstance(e, dict) and "msg" in e]
     exp = []
     for m in msgs:
         if (m[0], m[1]) == (7, 0):
